@@ -19,7 +19,7 @@ fn stream_word(t: &mut Tape) -> u64 {
 }
 
 /// stream: `k` zero words, then a body drawn from {0, 1, 2, MAX, even, odd, 2^63}
-fn stream(t: &mut Tape, n: usize) -> Vec<u64> {
+pub(crate) fn stream(t: &mut Tape, n: usize) -> Vec<u64> {
     let k = if t.chance(1, 8) {
         // a long run of zero draws of the type (d draws of n words, minus / plus a word): a rejection
         // loop with a hidden bound on the number of attempts gives in here
@@ -54,7 +54,7 @@ fn model_nz<T: Random + Val>(rng: &mut FiniteRng) -> (Option<Limbs>, usize) {
     }
 }
 
-fn nz_finite<T: Random + Val>(name: &str, words: &[u64], c: &mut Case) -> CaseResult
+pub(crate) fn nz_finite<T: Random + Val>(name: &str, words: &[u64], c: &mut Case) -> CaseResult
 where
     NonZero<T>: Random,
 {
@@ -83,7 +83,7 @@ where
     Ok(())
 }
 
-fn nz_infinite<T: Random + Val>(name: &str, words: &[u64], tail: u64) -> CaseResult
+pub(crate) fn nz_infinite<T: Random + Val>(name: &str, words: &[u64], tail: u64) -> CaseResult
 where
     NonZero<T>: Random,
 {
